@@ -6,7 +6,7 @@
 import Optyx.Generated.PinsC04
 
 namespace Optyx.Props.PinsC04
-open Optyx.Generated
+open Optyx.Generated.PinsC04
 
 /-- `compute_degree` (analysis.py) -/
 theorem pin_analysis_compute_degree_anchor : pin_analysis_compute_degree = "e9c75ebb425434aa" := rfl
